@@ -921,6 +921,9 @@ class SearchConstraintSearchSince(BinarySeekSearchBase):  # noqa, pylint: disabl
 
         if fd.name in self._results:
             log.debug("using cached offset")
+            if destructive and self._results[fd.name] is not None:
+                fd.seek(self._results[fd.name])
+
             return self._results[fd.name]
 
         newpos = 0
